@@ -8,6 +8,7 @@ package main
 // Nothing here decides a verdict: events are validated by TLC.
 
 import (
+	"errors"
 	"strings"
 	"bufio"
 	"bytes"
@@ -138,6 +139,43 @@ func toInts(b []byte) []int {
 	return a
 }
 
+// pausingReader: data, a transient interruption (io.EOF or a read time-out), more data later, another interruption,
+// the rest, then io.EOF for good
+type pausingReader struct {
+	parts [][]byte
+	gaps  []time.Duration
+	i     int
+	brk   bool
+	soft  error
+}
+
+func (p *pausingReader) Read(b []byte) (int, error) {
+	if p.brk {
+		p.brk = false
+		if p.soft != nil {
+			return 0, p.soft
+		}
+		return 0, io.EOF
+	}
+	for p.i < len(p.parts) && len(p.parts[p.i]) == 0 {
+		p.i++
+	}
+	if p.i >= len(p.parts) {
+		return 0, io.EOF
+	}
+	if p.gaps[p.i] > 0 {
+		time.Sleep(p.gaps[p.i])
+		p.gaps[p.i] = 0
+	}
+	n := copy(b, p.parts[p.i])
+	p.parts[p.i] = p.parts[p.i][n:]
+	if len(p.parts[p.i]) == 0 {
+		p.i++
+		p.brk = p.i < len(p.parts)
+	}
+	return n, nil
+}
+
 var verifStart = time.Date(2023, 5, 10, 12, 0, 0, 0, time.UTC)
 
 func runHandle(in []byte, w io.Writer, cfg *jsonconfig.Config, c vCase) chan string {
@@ -149,6 +187,17 @@ func runHandle(in []byte, w io.Writer, cfg *jsonconfig.Config, c vCase) chan str
 			ch = 1 << 20
 		}
 		r = &chunkedReader{append([]byte{}, in...), rand.New(rand.NewSource(c.Seed)), ch, c.EOFWith}
+	}
+	if strings.HasPrefix(c.Cls, "transient") {
+		// a live source that drops out for a moment twice (the second time later than one tolerance after the first);
+		// the configuration has a non-zero end-of-file tolerance (set by the caller)
+		c1, c2 := len(in)/3, 2*len(in)/3
+		pr := &pausingReader{parts: [][]byte{append([]byte{}, in[:c1]...), append([]byte{}, in[c1:c2]...), append([]byte{}, in[c2:]...)},
+			gaps: []time.Duration{0, 110 * time.Millisecond, 0}}
+		if strings.HasSuffix(c.Cls, "timeout") {
+			pr.soft = errors.New("read /dev/ttyACM0: i/o timeout")
+		}
+		r = pr
 	}
 	go func() {
 		defer func() {
@@ -362,6 +411,9 @@ func TestVerifApps(t *testing.T) {
 		case "c10":
 			dir := t.TempDir()
 			cfg := &jsonconfig.Config{DisplayMessages: c.Display, RecordMessages: c.Record, MessageLogDirectory: dir}
+			if strings.HasPrefix(c.Cls, "transient") {
+				cfg.TimeoutOnEOFMilliSeconds, cfg.WaitTimeOnEOFMilliseconds = 70, 5
+			}
 			w := &recWriter{held: make(chan struct{}), release: make(chan struct{})}
 			if strings.HasPrefix(c.Cls, "stall") {
 				// whoever reads standard output stalls for several seconds on the first write: every valid frame still comes out
